@@ -74,6 +74,17 @@ def async_part(chk, lib, thorough):
         lines.append("h%d %d %d 32 4 1 0 0:%d" % (k, rng.below(1 << 31), [0, 3, 1][k % 3], (1024 + 76 + 5 * k) * 32 - 7))
         lines.append("b%d %d %d 32 128 1 -5000 %s" % (k, rng.below(1 << 31), [0, 3, 1][k % 3],
                                                      "|".join(",".join("0:%d" % (15 * 32 + j) for j in range(45)) for _ in range(2))))
+    # file objects that report no descriptor in some writer rounds (cannot open): text may be lost, pages never
+    for i in range(12 if not thorough else 60):
+        psize = rng.choice([32, 64, 128])
+        qcap = rng.choice([1, 2, 4, 8])
+        nfiles = 1 + rng.below(2)
+        rot = rng.choice([1001, 1002, 1004, 1999])
+        lens = [1, psize - 12, psize, 3 * psize, 14 * psize - 11, 14 * psize + 40, 20 * psize, 14 * psize + 3 * (psize // 8 - 1) * psize + 5]
+        prog = "|".join(",".join("%d:%d" % (rng.below(nfiles), rng.choice(lens)) for _ in range(1 + rng.below(4)))
+                        for _ in range(1 + rng.below(3)))
+        for k in range(3):
+            lines.append("u%d.%d %d %d %d %d %d %d %s" % (i, k, rng.below(1 << 31), [0, 3, 1][k], psize, qcap, nfiles, rot, prog))
     out = chk.run_cases(exe, lines, timeout=900)
     WHAT = {"intact": "a file stream is not a sequence of intact entries (bytes lost, mixed or invented)",
             "once": "an entry written before close() did not reach its file exactly once",
@@ -96,6 +107,9 @@ def async_part(chk, lib, thorough):
                 chk.violate("async-" + m, w + ": " + o[:300], rep)
         seen.add(o.split(" | ")[1])
     chk.notes["async_appender"] = {"executions": len(lines), "distinct_file_streams": len(seen),
+                                   "unavailable_file_cases": len([l for l in lines if l.startswith("u")]),
+                                   "unavailable_file_cases_that_lost_text": len([l for l in lines if l.startswith("u") and
+                                                                                 re.search(r"lost=[1-9]", out.get(l.split()[0], ""))]),
                                    "sample": out.get(lines[0].split()[0], "") if lines else ""}
     chk.cov["evaluations"] += len(lines)
 
